@@ -175,3 +175,28 @@ for (nm, fn, f) in [('extend.k', 'extend_refuses_k', 'extend'), ('extend.strand'
     ob('C07.refuse.' + nm, ['C07'], 'merge_ska_dict/extend', fn, functions=[MD + f], inst='u64', needs_parts=['merge_ska_dict/common', 'ska_dict/acc'], caps={'MCAP': 2, 'SCAP': 1, 'ACAP': 1}, models=['hashbrown'],
        sym='strand mode; second input differs in ' + nm.split('.')[1], oracle='the refusing panic inside %s is reachable and the statement after the call is not' % f, bounds='2 keys', timeout=900, mem_gb=8,
        expected_fail=['in function merge_ska_dict::MergeSkaDict::<u64>::' + f])
+
+# ------------------------------------------------------------------ C08 delete
+CAP23 = {'ACAP': 6, 'SCAP': 3, 'MCAP': 2}
+for (m, r) in [(1, 0), (2, 0), (4, 0), (3, 0), (5, 0), (6, 0), (3, 1), (5, 1), (6, 1)]:
+    ob('C08.del.m%d%s' % (m, '.rev' if r else ''), ['C08', 'C10'], 'merge_ska_array/delete', 'delete_m%d_%s' % (m, 'rev' if r else 'fwd'), tier='quick' if (m, r) in ((2, 0), (5, 1)) else 'thorough',
+       functions=[MA + 'delete_samples', MA + 'update_counts'], inst='u64', needs_parts=['merge_ska_array/common'], caps=CAP23, models=['ndarray', 'hashbrown'],
+       sym='2 x 3 table over the 16 stored symbols; subset of {a,b,c} to delete concrete (mask %d), names passed %s' % (m, 'in reverse order' if r else 'in file order'),
+       oracle='remaining columns in order with all their bases; rows that become empty removed; counts recomputed; k-mers aligned', bounds='3 samples, 2 k-mers', timeout=2400, mem_gb=12)
+for w in ('absent', 'all', 'none'):
+    ob('C08.refuse.' + w, ['C08'], 'merge_ska_array/delete', 'delete_refuses_' + w, functions=[MA + 'delete_samples'], inst='u64', needs_parts=['merge_ska_array/common'], caps=CAP23, models=['ndarray', 'hashbrown'],
+       sym='2 x 3 table; delete list: ' + w, oracle='the refusing panic inside delete_samples is reachable and the statement after the call is not', bounds='3 samples', timeout=900, mem_gb=8,
+       expected_fail=['in function merge_ska_array::MergeSkaArray::<u64>::delete_samples'])
+# ------------------------------------------------------------------ C14 distances
+ob('C14.pair', ['C14'], 'merge_ska_array/dist', 'variant_dist_pair_r4', functions=[MA + 'variant_dist', BE + 'base_to_prob'], inst='u64', needs_parts=['merge_ska_array/common'], caps={'ACAP': 1, 'SCAP': 1, 'MCAP': 1}, models=['ndarray (ArrayView)'],
+   sym='two columns of 4 symbols over {A,C,G,T,-}, constant 0..=3', oracle='distance = #{both present, different}; mismatch = m/(constant+both+m), 0 if empty; in [0,1]; symmetric; identical -> (0,0)', bounds='4 k-mers', timeout=1800, mem_gb=12)
+ob('C14.all', ['C14'], 'merge_ska_array/dist', 'distance_all_pairs_2x3', functions=[MA + 'distance', MA + 'variant_dist'], inst='u64', needs_parts=['merge_ska_array/common'], caps=CAP23, models=['ndarray', 'rayon (sequential)', 'indicatif'],
+   sym='2 x 3 table over {A,C,G,T,-}, constant 0..=2', oracle='row i holds pairs (i,j), j>i, each unordered pair once, values = pairwise specification', bounds='3 samples, 2 k-mers', timeout=2400, mem_gb=12)
+# ------------------------------------------------------------------ C07.rt / C03.fasta / C01.nk
+ob('C07.rt', ['C07', 'C10'], 'merge_ska_array/conv', 'array_dict_roundtrip_2x3', functions=[MA + 'to_dict', MA + 'new', MD + 'build_from_array'], inst='u64', needs_parts=['merge_ska_array/common'], caps=CAP23, models=['ndarray', 'hashbrown'],
+   sym='2 x 3 table over the 16 stored symbols, strand mode, stale stored count', oracle='array -> dict -> array preserves k, strand mode, names and the key -> row map; counts recomputed', bounds='2 x 3', timeout=2400, mem_gb=12)
+for r in (0, 1, 2):
+    ob('C03.fasta.%dx3' % r, ['C03', 'C06'], 'merge_ska_array/conv', 'write_fasta_%dx3' % r, tier='quick' if r == 2 else 'thorough', functions=[MA + 'write_fasta'], inst='u64', needs_parts=['merge_ska_array/common'], caps=CAP23, models=['ndarray', 'needletail::write_fasta'],
+       sym='%d rows x 3 samples over the 16 stored symbols' % r, oracle='one record per sample in input order, sequence i = column i, all of equal length', bounds='%d x 3' % r, timeout=2400, mem_gb=12)
+ob('C01.nk', ['C01'], 'merge_ska_array/conv', 'n_sample_kmers_2x3', functions=[MA + 'n_sample_kmers', MA + 'ksize', MA + 'nsamples'], inst='u64', needs_parts=['merge_ska_array/common'], caps=CAP23, models=['ndarray'],
+   sym='2 x 3 table', oracle='per-sample count = number of non-gap cells in the column', bounds='2 x 3', timeout=900, mem_gb=8)
